@@ -90,6 +90,11 @@ type Config struct {
 	// before the first decision (threads are started one after the other, so
 	// the code before that point runs in thread order).
 	FreeStart bool
+	// AuxFirst changes the canonical order of enabled threads when the running
+	// thread cannot continue: goroutines started by the code under test
+	// (background writers, encoders) come before the harness threads instead of
+	// after them. It selects a different default schedule, nothing else.
+	AuxFirst bool
 }
 
 // Result describes a finished run.
@@ -295,6 +300,9 @@ func Run(choose Chooser, cfg Config, bodies ...func()) Result {
 			}
 		}
 		sort.Slice(parked, func(i, j int) bool {
+			if cfg.AuxFirst && parked[i].harness != parked[j].harness {
+				return !parked[i].harness // goroutines started by the code under test come before the harness threads
+			}
 			if parked[i].id != parked[j].id {
 				return parked[i].id < parked[j].id
 			}
